@@ -109,7 +109,7 @@ def Res.InlineNoHeap {α : Type} (hp : Heap) : Res α → Prop
   | .ok _ hp' r' | .err hp' r' | .pidx hp' r' | .pcb hp' r' => hp' = hp ∧ ∃ raw', r' = .inl raw'
   | .ub _ => True
 
-theorem writeThenSetLen_inl' (hp : Heap) (raw : Bytes) (off : Nat) (s : Bytes) (n : Nat) :
+theorem writeThenSetLen_inl_any (hp : Heap) (raw : Bytes) (off : Nat) (s : Bytes) (n : Nat) :
     (writeThenSetLen hp (.inl raw) off s n).InlineNoHeap hp := by
   cases h : writeThenSetLen hp (.inl raw) off s n with
   | ok v hp' r' => exact writeThenSetLen_inl hp hp' raw off s n r' h
@@ -167,7 +167,7 @@ theorem remove_inline (rf : Refuse) (st : List Bytes) (hp : Heap) (raw : Bytes) 
   · exact ⟨rfl, _, rfl⟩
   · split
     · exact ⟨rfl, _, rfl⟩
-    · have := writeThenSetLen_inl' hp raw i ((raw.take (inlLen raw)).drop (i + charWidth ((raw.take (inlLen raw)).getD i 0)))
+    · have := writeThenSetLen_inl_any hp raw i ((raw.take (inlLen raw)).drop (i + charWidth ((raw.take (inlLen raw)).getD i 0)))
         ((raw.take (inlLen raw)).length - charWidth ((raw.take (inlLen raw)).getD i 0))
       revert this
       cases writeThenSetLen hp (.inl raw) i _ _ <;> exact id
@@ -176,7 +176,7 @@ theorem retain_inline (rf : Refuse) (st : List Bytes) (hp : Heap) (raw : Bytes) 
     (retain rf st hp (.inl raw) answers).InlineNoHeap hp := by
   unfold retain
   simp only [textOf, ensureModifiable]
-  have := writeThenSetLen_inl' hp raw 0
+  have := writeThenSetLen_inl_any hp raw 0
     (retainScan (raw.take (inlLen raw)).length (raw.take (inlLen raw)) answers []).1
     (retainScan (raw.take (inlLen raw)).length (raw.take (inlLen raw)) answers []).1.length
   revert this
@@ -196,7 +196,7 @@ theorem insertStr_inline (rf : Refuse) (st : List Bytes) (hp : Heap) (raw : Byte
   · have hca : checkedAdd (Handle.inl raw).len s.length = some (inlLen raw + s.length) := by
       simp only [Handle.len]; unfold checkedAdd USIZE; rw [if_pos (by omega)]
     simp only [hca, reserve_inl_small rf st hp raw s.length hfit, textOf]
-    exact writeThenSetLen_inl' hp raw i _ _
+    exact writeThenSetLen_inl_any hp raw i _ _
 
 /-- the same at the level of public calls: a mutator whose target is inline (and, for the growing ones,
 whose result fits in 16 bytes) leaves `World.heap` identical and the target inline, for every outcome
